@@ -74,7 +74,11 @@ func (p *VipnodePool) CloseRemote(remote jsonrpc2.Service) error {
 	}
 
 	delete(p.remoteNodeLookup, remote)
-	delete(p.remoteHosts, nodeID)
+	if p.remoteHosts[nodeID] == remote {
+		// Only unregister the host if it did not reconnect on a newer
+		// connection in the meantime.
+		delete(p.remoteHosts, nodeID)
+	}
 
 	return nil
 }
